@@ -1,7 +1,7 @@
 (* FilterCheck.v — executable comparison of the C02 models with observations of the real
    code (used by the generated case files of harness/cmd/c02).  Every check returns the
    indices of the cases on which model and observation differ. *)
-From SigM Require Import Base Dte Filter FilterPlan.
+From SigM Require Import Base Dte Filter FilterPlan ChunkWalk FilterChunk.
 From Coq Require Import QArith.
 Open Scope Z_scope.
 
@@ -118,4 +118,24 @@ Fixpoint check_plan_select2 (blks : list blockrec) (qs : list (expr * trange * l
       (if ids_eqb got obs then [] else [idx])
       ++ (if ids_eqb got (ids (impl_select e tr (all_events blks))) then [] else [(1000 + idx)%nat])
       ++ check_plan_select2 blks r (S idx)
+  end.
+
+(* ---------- segments with many blocks: the search executed chunk by chunk (FilterChunk.v) ---------- *)
+(* the harness sorts the returned ids; the chunked search returns the events chunk by chunk (descending blocks) *)
+(* (insertion sort; the reversal makes the runs of ascending ids cheap to insert) *)
+Definition sorted_ids (evs : list event) : list N := rev (sort_desc (rev (ids evs))).
+
+(* index i = the returned ids differ from the chunked search of the merged plan (chunks of n, descending block numbers),
+   1000 + i = the chunked search differs from the record-level search of all events (the plan and the chunking change
+   nothing; redundant with chunk_select_exact where cmi_model is sound).  The guard self-check (record-level search =
+   specification) is left to the small layouts: three evaluations over ~500 records per query are the cost here *)
+Fixpoint check_chunk_select2 (n : nat) (blks : list blockrec) (qs : list (expr * trange * list N)) (idx : nat) : list nat :=
+  match qs with
+  | [] => []
+  | (e, tr, obs) :: r =>
+      let evs := all_events blks in
+      let got := sorted_ids (chunk_select n false cmi_model e tr blks) in
+      (if ids_eqb got obs then [] else [idx])
+      ++ (if ids_eqb got (sorted_ids (impl_select e tr evs)) then [] else [(1000 + idx)%nat])
+      ++ check_chunk_select2 n blks r (S idx)
   end.
